@@ -314,6 +314,43 @@ const W_LAZY: &[(K, u64)] = &[
     (K::Cycle, 2),
 ];
 
+const W_SETS: &[(K, u64)] = &[
+    (K::Root, 8),
+    (K::Child, 6),
+    (K::Finish, 8),
+    (K::StartCollector, 10),
+    (K::LocalEnter, 16),
+    (K::LocalWithProps, 3),
+    (K::LocalAddEvent, 6),
+    (K::LocalAddProps, 5),
+    (K::Pop, 24),
+    (K::Push, 14),
+    (K::ToRecords, 6),
+    (K::SetLocalParent, 3),
+    (K::Cycle, 5),
+    (K::Advance, 3),
+    (K::Flush, 1),
+];
+
+const W_TIMES: &[(K, u64)] = &[
+    (K::Root, 6),
+    (K::Child, 8),
+    (K::ChildLocal, 4),
+    (K::Finish, 10),
+    (K::SetLocalParent, 8),
+    (K::LocalEnter, 16),
+    (K::LocalAddEvent, 8),
+    (K::StartCollector, 3),
+    (K::Pop, 24),
+    (K::Push, 3),
+    (K::Elapsed, 5),
+    (K::Advance, 8),
+    (K::Sleep, 2),
+    (K::Cycle, 6),
+    (K::Flush, 1),
+    (K::AddEvent, 2),
+];
+
 pub fn profile(prop: &str) -> Profile {
     let b = base_profile("C01");
     match prop {
@@ -402,6 +439,31 @@ pub fn profile(prop: &str) -> Profile {
             weights: W_CTX,
             unsampled_pct: 20,
             multi_parent_pct: 40,
+            live_tail: false,
+            stall_pct: 0,
+            ..b
+        },
+        "C17" => Profile {
+            prop: "C17",
+            callers: (0, 2),
+            cancelable_pct: 25,
+            weights: W_SETS,
+            atomic_pct: 50,
+            wallstep_pct: 50,
+            props_pct: 40,
+            max_depth: 7,
+            live_tail: false,
+            stall_pct: 0,
+            ..b
+        },
+        "C18" => Profile {
+            prop: "C18",
+            callers: (0, 2),
+            cancelable_pct: 25,
+            weights: W_TIMES,
+            atomic_pct: 60,
+            wallstep_pct: 50,
+            max_depth: 8,
             live_tail: false,
             stall_pct: 0,
             ..b
